@@ -402,6 +402,26 @@ def d_create_request(a):
     return [m.create_request(method_of(a), copy.deepcopy(_obj(a.get("params"))), id=idval(a.get("id")), **kw)]
 
 
+def _caller(before, after):
+    """what happened to the dict the caller handed in (observed, informational)"""
+    try:
+        return {"caller_before": None if before is None else J.of_py(before), "caller_after": None if after is None else J.of_py(after)}
+    except TypeError:
+        return {}
+
+
+def d_create_request_obs(a):
+    """create_request, keeping hold of the caller's params dict to see what the call did to it"""
+    m = _msg_mod()
+    kw = {}
+    if a.get("tok") is not None:
+        kw["progress_token"] = idval(a["tok"])
+    p = copy.deepcopy(_obj(a.get("params")))
+    before = copy.deepcopy(p)
+    msg = m.create_request(method_of(a), p, id=idval(a.get("id")), **kw)
+    return [msg], None, _caller(before, p)
+
+
 def d_create_notification(a):
     return [_msg_mod().create_notification(method_of(a), _obj(a.get("params")))]
 
@@ -474,9 +494,12 @@ def d_send_message(a):
         if token is not None:
             kw["cancellation_token"] = token
         timeout = 0 if a.get("timeout0") else (4.0 if a.get("cancel") else 0.01)
-        await send_message(r, w, method_of(a), copy.deepcopy(_obj(a.get("params"))), timeout=timeout, **kw)
+        await send_message(r, w, method_of(a), p, timeout=timeout, **kw)
 
-    return run_async(go, tie=a.get("tie", "events"), at=at)
+    p = copy.deepcopy(_obj(a.get("params")))
+    before = copy.deepcopy(p)
+    written, exc = run_async(go, tie=a.get("tie", "events"), at=at)
+    return written, exc, _caller(before, p)
 
 
 # argument registry for the typed helpers: parameter name -> value built from the case
@@ -1277,7 +1300,7 @@ def drivers():
     if _DRIVERS is not None:
         return _DRIVERS
     D = {
-        "json_rpc_message.create_request": ("ctor", d_create_request),
+        "json_rpc_message.create_request": ("ctor", d_create_request_obs),
         "json_rpc_message.create_notification": ("ctor", d_create_notification),
         "json_rpc_message.create_response": ("ctor", d_create_response),
         "json_rpc_message.create_error_response": ("ctor", d_create_error_response),
